@@ -44,6 +44,14 @@ CLAIMED = {
    text="Step contracts on the OpCall arm: a call that keeps the frame count and restarts at ip -1 happens only when the next instruction is RET (or POP; RET), keeps curFrame and the instruction stream, and a non-tail call pushes exactly one frame with the saved ip inside the call instruction.",
    note="Simultaneous parameter update and agreement with the equivalent loop are not covered yet.",
    ref="DESIGN.md §4 C16"),
+ "C12": dict(
+   text="De-duplication only: loop invariants on the real (*Bytecode).RemoveDuplicates prove, for all constant pools, that every old index is mapped to a valid new index, that the mapped constant has the same dynamic type, and that every per-type table (functions, ints, strings, floats, chars, module maps) points at a constant of that kind with that payload.",
+   note="updateConstIndexes (instruction rewriting) has an assumed frame; gob encode/decode fidelity (external library) is not decided; fixDecodedObject not covered yet.",
+   ref="DESIGN.md §4 C12"),
+ "C13": dict(
+   text="Per-function clauses on the real compiler: an export statement in a module compiler always emits IMMUT; RET 1 (postcondition of Compile on the emitted bytes), a forked module compiler is a fresh compiler with the given symbol table, the same module getter and file-import setting, and symbol-table Fork/Parent link tables as specified; fields that link compilers and tables are proved write-once.",
+   note="compileModule (runs the parser, uses recover) and the loop statements have assumed contracts; import-graph termination and cycle exactness are not decided.",
+   ref="DESIGN.md §4 C13"),
 }
 for v in CLAIMED.values():
     v["technique"] = TECH
